@@ -81,8 +81,8 @@ def parent_op(s):
     if same(s, 'result = rx.recv()'):
         return 'PRecv []'
     if isinstance(s, ast.Try):
-        if s.orelse or s.finalbody or not s.handlers:
-            raise Untranslatable(UNIT, f'calculate_in_subprocess: try statement with else/finally at line {s.lineno}')
+        if s.orelse or not (s.handlers or s.finalbody):
+            raise Untranslatable(UNIT, f'calculate_in_subprocess: try statement with else / without handlers at line {s.lineno}')
         if not (len(s.body) == 1 and same(s.body[0], 'result = rx.recv()')):
             raise Untranslatable(UNIT, f'calculate_in_subprocess: try body is not `result = rx.recv()` at line {s.lineno}')
         hs = []
@@ -100,6 +100,17 @@ def parent_op(s):
                 raise Untranslatable(UNIT, 'calculate_in_subprocess: handler body is not '
                                            f'`result = SubprocessError(ex=ChildProcessError(<str>))` at line {h.lineno}')
             hs.append(f'({coq_list(classes_of(h, "calculate_in_subprocess"))}, PASetChildProcessError)')
+        if s.finalbody:
+            # try/except/finally: the finally body (simple statements only) is flattened behind the deferred recv
+            fin = []
+            for x in s.finalbody:
+                if isinstance(x, ast.Try):
+                    raise Untranslatable(UNIT, f'calculate_in_subprocess: nested try in a finally body at line {x.lineno}')
+                o = parent_op(x)
+                if isinstance(o, list) or o in ('PIfNotPollWait', 'PReturn', 'PRaiseIfError'):
+                    raise Untranslatable(UNIT, f'calculate_in_subprocess: unsupported statement in a finally body at line {x.lineno}')
+                fin.append(o)
+            return [f'PRecvDefer {coq_list(hs)}'] + fin + ['PReraise']
         return f'PRecv {coq_list(hs)}'
     raise Untranslatable(UNIT, f'calculate_in_subprocess: unrecognised statement at line {s.lineno}')
 
@@ -162,10 +173,15 @@ def translate():
     if not isinstance(f, ast.AsyncFunctionDef) or f.decorator_list:
         raise Untranslatable(UNIT, 'calculate_in_subprocess is not an undecorated `async def`')
     a = f.args
-    if [x.arg for x in a.args] != ['func'] or a.posonlyargs or a.kwonlyargs or a.defaults or a.vararg is None \
+    names = ([x.arg for x in a.posonlyargs], [x.arg for x in a.args])
+    if names not in ((['func'], []), ([], ['func'])) or a.kwonlyargs or a.defaults or a.vararg is None \
             or a.vararg.arg != 'args' or a.kwarg is None or a.kwarg.arg != 'kwargs':
-        raise Untranslatable(UNIT, 'signature of calculate_in_subprocess is not (func, *args, **kwargs)')
-    pops = [parent_op(s) for s in strip_doc(f.body)]
+        raise Untranslatable(UNIT, 'signature of calculate_in_subprocess is not (func[, /], *args, **kwargs)')
+    parent_kw_safe = names == (['func'], [])     # positional-only: a caller's keyword `func` lands in **kwargs
+    pops = []
+    for st in strip_doc(f.body):
+        o = parent_op(st)
+        pops += o if isinstance(o, list) else [o]
     n_await = len([n for n in ast.walk(f) if isinstance(n, (ast.Await, ast.AsyncFor, ast.AsyncWith, ast.Yield, ast.YieldFrom))])
     only_wait_awaits = n_await == pops.count('PIfNotPollWait')
 
@@ -173,9 +189,11 @@ def translate():
     if not isinstance(inner, ast.FunctionDef) or inner.decorator_list:
         raise Untranslatable(UNIT, '_inner is not an undecorated `def`')
     a = inner.args
-    if [x.arg for x in a.args] != ['tx', 'fun'] or a.posonlyargs or a.kwonlyargs or a.defaults or a.vararg is None \
+    names = ([x.arg for x in a.posonlyargs], [x.arg for x in a.args])
+    if names not in ((['tx', 'fun'], []), ([], ['tx', 'fun'])) or a.kwonlyargs or a.defaults or a.vararg is None \
             or a.vararg.arg != 'a' or a.kwarg is None or a.kwarg.arg != 'kw_args':
-        raise Untranslatable(UNIT, 'signature of _inner is not (tx, fun, *a, **kw_args)')
+        raise Untranslatable(UNIT, 'signature of _inner is not (tx, fun[, /], *a, **kw_args)')
+    child_kw_safe = names == (['tx', 'fun'], [])
     body = strip_doc(inner.body)
     cops = []
     i = 0
